@@ -323,6 +323,10 @@ where
                         alias: field.alias.as_ref().map(|alias| alias.as_ref().into()),
                         field_id,
                         selection_set: Vec::with_capacity(selection_set.items.len()),
+                        conditional: field
+                            .directives
+                            .iter()
+                            .any(|directive| matches!(directive.name.as_ref(), "skip" | "include")),
                     }),
                     parent,
                 );
